@@ -96,7 +96,8 @@ reg("C16",
 reg("C05",
     gen=lambda seed, tier: (P.gen_history_programs(G.Rng(seed + 5), N(tier, 60, 600), maxlen=N(tier, 14, 40)) +
                             P.gen_bucket_programs(G.Rng(seed + 51), N(tier, 60, 600)) +
-                            P.gen_shared_removal_programs(G.Rng(seed + 52), N(tier, 20, 200))),
+                            P.gen_shared_removal_programs(G.Rng(seed + 52), N(tier, 20, 200)) +
+                            P.gen_key_matrix_programs(G.Rng(seed + 53))),
     monitors=[lambda rr: (P.mon_bucket(rr) if "damage" in rr.prog.tags else
                           P.mon_shared_removal(rr) if "removals" in rr.prog.tags else P.mon_history(rr))],
     nontrivial=lambda rr: has(rr, ("remove",), ("ok",)) and has(rr, ("write", "wcommit"), ("ok",)),
@@ -109,7 +110,8 @@ reg("C05",
 reg("C09",
     gen=lambda seed, tier: (P.gen_history_programs(G.Rng(seed + 9), N(tier, 60, 600), maxlen=N(tier, 14, 40), full=True) +
                             P.gen_shard_programs(G.Rng(seed + 91), N(tier, 8, 40)) +
-                            P.gen_shared_removal_programs(G.Rng(seed + 94), N(tier, 20, 200))),
+                            P.gen_shared_removal_programs(G.Rng(seed + 94), N(tier, 20, 200)) +
+                            P.gen_key_matrix_programs(G.Rng(seed + 95))),
     extra=lambda seed, tier, flavours: LG.leg_skeleton(
         P.gen_shard_programs(G.Rng(seed + 92), N(tier, 4, 16)) +
         P.gen_history_programs(G.Rng(seed + 93), N(tier, 3, 12), maxlen=10, full=True), flavours[0]),
@@ -121,14 +123,18 @@ reg("C09",
 reg("C10",
     gen=lambda seed, tier: (P.gen_history_programs(G.Rng(seed + 10), N(tier, 40, 400), maxlen=N(tier, 14, 40)) +
                             P.gen_history_programs(G.Rng(seed + 101), N(tier, 40, 400), maxlen=N(tier, 14, 40), full=True) +
-                            P.gen_shared_removal_programs(G.Rng(seed + 102), N(tier, 30, 300))),
+                            P.gen_shared_removal_programs(G.Rng(seed + 102), N(tier, 30, 300)) +
+                            P.gen_foreign_listing_programs(G.Rng(seed + 103))),
     monitors=[lambda rr: (P.mon_shared_removal(rr) if "removals" in rr.prog.tags else
+                          P.mon_list_agrees_with_lookup(rr) if rr.prog.tags.get("listing_only") else
                           P.mon_history(rr) + P.mon_list_agrees_with_lookup(rr))],
     nontrivial=lambda rr: has(rr, ("list",), ("ok",)),
     rule="as C05 and C09 (histories with remove, remove_hash, remove_fully, clear over keys that share content); every "
          "listing is compared item by item with the lookups of all keys issued just before it; plus programs in which 2-3 "
          "keys share one content file that disappears through one of them before the others are removed: a removal that "
-         "answers ok has removed the key from lookups and listings, one that answers an error has left it")
+         "answers ok has removed the key from lookups and listings, one that answers an error has left it; plus buckets "
+         "holding checksummed records with odd integrity texts (unknown algorithm, empty, no hash, undecodable digest) alone, "
+         "before / after a valid record and after a tombstone: lookup and listing must make the same of them")
 
 reg("C20",
     gen=lambda seed, tier: (P.gen_hostile_state_programs(G.Rng(seed + 23), N(tier, 18, 36)) +
